@@ -66,6 +66,8 @@ type Op struct {
 	Kind  string  `json:"kind"` // entry|exit|trace|callee|whenexit|tick|snap
 	Res   int     `json:"res,omitempty"`
 	Inb   bool    `json:"inb,omitempty"`
+	RType int32   `json:"rtype,omitempty"` // entry: WithResourceType (0 = ResTypeCommon, the default); the model
+	// has no such field: a resource is its NAME, whatever classification a caller gives it
 	Batch uint32  `json:"batch,omitempty"`
 	Flag  int32   `json:"flag,omitempty"`
 	Args  []int64 `json:"args,omitempty"`
@@ -517,6 +519,9 @@ func Run(c *Case, clk *vclock.Clock) []Obs {
 				tt = base.Inbound
 			}
 			opts := []sentinel.EntryOption{sentinel.WithTrafficType(tt), sentinel.WithBatchCount(o.Batch), sentinel.WithFlag(o.Flag)}
+			if o.RType != 0 {
+				opts = append(opts, sentinel.WithResourceType(base.ResourceType(o.RType)))
+			}
 			if r.chains[o.Chain] != sentinel.GlobalSlotChain() {
 				// the global chain is reached the way applications reach it: no WithSlotChain option
 				opts = append(opts, sentinel.WithSlotChain(r.chains[o.Chain]))
@@ -950,6 +955,9 @@ func Gen(r *rng.R, id int, prof Profile) *Case {
 				o.Args = append(o.Args, r.Range(1, 50))
 			}
 			if prof == ProfC01 {
+				// one resource NAME entered with different option sets while entries are in flight: the
+				// classification varies per call (a web adapter and hand-written code sharing a name)
+				o.RType = int32(r.PickI(0, 0, 0, 1, 2, 3, 6))
 				if na > 0 && r.Chance(1, 5) {
 					o.Args[r.Intn(na)] = Unhashable
 				}
